@@ -6,6 +6,7 @@ import (
 	"os"
 	"os/signal"
 	"sort"
+	"sync"
 
 	"github.com/mithrandie/csvq/lib/action"
 	"github.com/mithrandie/csvq/lib/file"
@@ -353,10 +354,13 @@ func commandAction(fn func(ctx context.Context, c *cli.Context, proc *query.Proc
 		ch := make(chan os.Signal, 1)
 		signal.Notify(ch, action.Signals...)
 		var signalReceived error
+		var signalMutex sync.Mutex
 
 		go func() {
 			sig := <-ch
+			signalMutex.Lock()
 			signalReceived = query.NewSignalReceived(sig)
+			signalMutex.Unlock()
 			cancel()
 		}()
 
@@ -371,9 +375,11 @@ func commandAction(fn func(ctx context.Context, c *cli.Context, proc *query.Proc
 		}
 
 		err = fn(ctx, c, proc)
+		signalMutex.Lock()
 		if signalReceived != nil {
 			err = signalReceived
 		}
+		signalMutex.Unlock()
 		return
 	}
 }
